@@ -666,4 +666,310 @@ pub proof fn lemma_new_r(key: Seq<u8>, t0: u64, t1: u64)
     assert(0x1_0000_0000_0000_0000_0000_00int == pl_c88()) by (compute_only);
 }
 
+// ------------------------------------------------------------------------------------------------
+// Poly1305::finalize: full carry, conditional subtraction of p, addition of s, serialisation
+// ------------------------------------------------------------------------------------------------
+/// limb value with literal radix constants (linear arithmetic for the SMT solver)
+pub proof fn lemma_lv_lit(a0: int, a1: int, a2: int)
+    ensures
+        pl_lv(a0, a1, a2) == a0 + a1 * 0x100000000000 + a2 * 0x10000000000000000000000,
+{
+    assert(pl_c88() == 0x10000000000000000000000int) by (compute_only);
+}
+
+pub proof fn lemma_p_lit()
+    ensures
+        pl_p() == 0x4_0000_0000_0000_0000_0000_0000_0000_0000int - 5,
+        pl_c128() == 0x1_0000_0000_0000_0000_0000_0000_0000_0000int,
+{
+    assert(pl_p() == 0x4_0000_0000_0000_0000_0000_0000_0000_0000int - 5) by (compute_only);
+    assert(pl_c128() == 0x1_0000_0000_0000_0000_0000_0000_0000_0000int) by (compute_only);
+}
+
+/// one carry pass h1 -> h2 -> (*5) h0 -> h1, as in `finalize`
+pub open spec fn pl_carry_pass(h0: int, h1: int, h2: int) -> (int, int, int) {
+    let c1 = h1 / pl_c44();
+    let a1 = h1 % pl_c44();
+    let y2 = h2 + c1;
+    let c2 = y2 / pl_c42();
+    let a2 = y2 % pl_c42();
+    let y0 = h0 + c2 * 5;
+    let c3 = y0 / pl_c44();
+    let a0 = y0 % pl_c44();
+    (a0, a1 + c3, a2)
+}
+
+pub proof fn lemma_carry_pass(h0: int, h1: int, h2: int)
+    requires
+        0 <= h0,
+        0 <= h1,
+        0 <= h2,
+    ensures
+        ({
+            let f = pl_carry_pass(h0, h1, h2);
+            pl_lv(h0, h1, h2) % pl_p() == pl_lv(f.0, f.1, f.2) % pl_p()
+        }),
+{
+    lemma_p_lit();
+    let f = pl_carry_pass(h0, h1, h2);
+    let c2 = (h2 + h1 / pl_c44()) / pl_c42();
+    lemma_lv_lit(h0, h1, h2);
+    lemma_lv_lit(f.0, f.1, f.2);
+    let plit = 0x4_0000_0000_0000_0000_0000_0000_0000_0000int - 5;
+    assert(pl_lv(h0, h1, h2) == pl_lv(f.0, f.1, f.2) + c2 * plit);
+    assert(pl_p() * c2 == c2 * plit) by (nonlinear_arith)
+        requires
+            pl_p() == plit,
+    ;
+    vstd::arithmetic::div_mod::lemma_mod_multiples_vanish(c2, pl_lv(f.0, f.1, f.2), pl_p());
+}
+
+/// two carry passes bring every limb into canonical range and keep the value modulo p
+pub proof fn lemma_full_carry(h0: int, h1: int, h2: int)
+    requires
+        0 <= h0 <= 0xfffffffffff,
+        0 <= h1 <= 0x1fffffffffff,
+        0 <= h2 <= 0x3ffffffffff,
+    ensures
+        ({
+            let e = pl_carry_pass(h0, h1, h2);
+            let f = pl_carry_pass(e.0, e.1, e.2);
+            &&& 0 <= f.0 <= 0xfffffffffff
+            &&& 0 <= f.1 <= 0xfffffffffff
+            &&& 0 <= f.2 <= 0x3ffffffffff
+            &&& pl_lv(f.0, f.1, f.2) % pl_p() == pl_lv(h0, h1, h2) % pl_p()
+        }),
+{
+    let e = pl_carry_pass(h0, h1, h2);
+    lemma_carry_pass(h0, h1, h2);
+    lemma_carry_pass(e.0, e.1, e.2);
+}
+
+/// h + 5 - 2^130 limb-wise, selected iff it is non-negative
+pub open spec fn pl_select(b0: int, b1: int, b2: int) -> (int, int, int) {
+    let g0w = b0 + 5;
+    let ca = g0w / pl_c44();
+    let g0 = g0w % pl_c44();
+    let g1w = b1 + ca;
+    let cb = g1w / pl_c44();
+    let g1 = g1w % pl_c44();
+    let y = b2 + cb;
+    if y >= pl_c42() {
+        (g0, g1, y - pl_c42())
+    } else {
+        (b0, b1, b2)
+    }
+}
+
+pub proof fn lemma_select(b0: int, b1: int, b2: int)
+    requires
+        0 <= b0 <= 0xfffffffffff,
+        0 <= b1 <= 0xfffffffffff,
+        0 <= b2 <= 0x3ffffffffff,
+    ensures
+        ({
+            let s = pl_select(b0, b1, b2);
+            &&& 0 <= s.0 <= 0xfffffffffff
+            &&& 0 <= s.1 <= 0xfffffffffff
+            &&& 0 <= s.2 <= 0x3ffffffffff
+            &&& pl_lv(s.0, s.1, s.2) == pl_lv(b0, b1, b2) % pl_p()
+        }),
+{
+    lemma_p_lit();
+    let s = pl_select(b0, b1, b2);
+    lemma_lv_lit(b0, b1, b2);
+    lemma_lv_lit(s.0, s.1, s.2);
+    let hb = pl_lv(b0, b1, b2);
+    let hs = pl_lv(s.0, s.1, s.2);
+    let y = b2 + (b1 + (b0 + 5) / pl_c44()) / pl_c44();
+    if y >= pl_c42() {
+        assert(hs == hb - pl_p());
+        assert(0 <= hs < pl_p());
+        vstd::arithmetic::div_mod::lemma_fundamental_div_mod_converse(hb, pl_p(), 1, hs);
+    } else {
+        assert(hs == hb);
+        assert(0 <= hb < pl_p());
+        vstd::arithmetic::div_mod::lemma_small_mod(hb as nat, pl_p() as nat);
+    }
+}
+
+/// adding the pad limb-wise with carries, truncating to 2^130, and packing into two 64-bit words = (h + s) mod 2^128
+pub open spec fn pl_add_pack(s0: int, s1: int, s2: int, p0: int, p1: int, p2: int) -> (int, int) {
+    let x0w = s0 + p0;
+    let c = x0w / pl_c44();
+    let x0 = x0w % pl_c44();
+    let x1w = s1 + (p1 + c);
+    let c2 = x1w / pl_c44();
+    let x1 = x1w % pl_c44();
+    let x2w = s2 + (p2 + c2);
+    let x2 = x2w % pl_c42();
+    (x0 + (x1 % 0x100000) * 0x100000000000, x1 / 0x100000 + (x2 % 0x10000000000) * 0x1000000)
+}
+
+pub proof fn lemma_add_pack(s0: int, s1: int, s2: int, p0: int, p1: int, p2: int)
+    requires
+        0 <= s0 <= 0xfffffffffff,
+        0 <= s1 <= 0xfffffffffff,
+        0 <= s2 <= 0x3ffffffffff,
+        0 <= p0 <= 0xfffffffffff,
+        0 <= p1 <= 0xfffffffffff,
+        0 <= p2 <= 0xffffffffff,
+    ensures
+        ({
+            let o = pl_add_pack(s0, s1, s2, p0, p1, p2);
+            &&& 0 <= o.0 < pl_c64()
+            &&& 0 <= o.1 < pl_c64()
+            &&& o.0 + o.1 * pl_c64() == (pl_lv(s0, s1, s2) + pl_lv(p0, p1, p2)) % pl_c128()
+        }),
+{
+    lemma_p_lit();
+    lemma_lv_lit(s0, s1, s2);
+    lemma_lv_lit(p0, p1, p2);
+    let x0w = s0 + p0;
+    let c = x0w / pl_c44();
+    let x0 = x0w % pl_c44();
+    let x1w = s1 + (p1 + c);
+    let c2 = x1w / pl_c44();
+    let x1 = x1w % pl_c44();
+    let x2w = s2 + (p2 + c2);
+    let x2 = x2w % pl_c42();
+    let q = x2w / pl_c42();
+    let x2l = x2 % 0x10000000000;
+    let q2 = x2 / 0x10000000000;
+    let o = pl_add_pack(s0, s1, s2, p0, p1, p2);
+    let total = pl_lv(s0, s1, s2) + pl_lv(p0, p1, p2);
+    let c128 = 0x1_0000_0000_0000_0000_0000_0000_0000_0000int;
+    assert(total == x0 + x1 * 0x100000000000 + x2w * 0x10000000000000000000000);
+    let low = o.0 + o.1 * 0x1_0000_0000_0000_0000;
+    assert(low == x0 + x1 * 0x100000000000 + x2l * 0x10000000000000000000000);
+    assert(total == low + (q2 + 4 * q) * c128);
+    assert(0 <= low < c128);
+    assert(total == (q2 + 4 * q) * pl_c128() + low) by (nonlinear_arith)
+        requires
+            total == low + (q2 + 4 * q) * c128,
+            pl_c128() == c128,
+    ;
+    vstd::arithmetic::div_mod::lemma_fundamental_div_mod_converse(total, pl_c128(), q2 + 4 * q, low);
+}
+
+// ------------------------------------------------------------------------------------------------
+// bytes
+// ------------------------------------------------------------------------------------------------
+/// nat_to_le is the inverse of le_nat
+pub proof fn lemma_nat_to_le_of_le_nat(s: Seq<u8>)
+    ensures
+        nat_to_le(le_nat(s), s.len()) == s,
+    decreases s.len(),
+{
+    if s.len() == 0 {
+        assert(nat_to_le(le_nat(s), s.len()) =~= s);
+    } else {
+        let t = s.subrange(1, s.len() as int);
+        lemma_nat_to_le_of_le_nat(t);
+        let v = le_nat(s);
+        assert(v == s[0] as nat + 256 * le_nat(t));
+        assert(v % 256 == s[0] as nat);
+        assert(v / 256 == le_nat(t));
+        assert(seq![s[0]] + t =~= s);
+    }
+}
+
+/// two little-endian 64-bit words written to out[0..8], out[8..16] are the 16-byte little-endian encoding
+pub proof fn lemma_tag_bytes(out: Seq<u8>, o0: nat, o1: nat)
+    requires
+        out.len() == 16,
+        le_nat(out.subrange(0, 8)) == o0,
+        le_nat(out.subrange(8, 16)) == o1,
+    ensures
+        out == nat_to_le(o0 + o1 * (pl_c64() as nat), 16),
+{
+    lemma_pl_consts();
+    lemma_le_nat_split(out, 8);
+    lemma_nat_to_le_of_le_nat(out);
+    assert(pow256(8) * o1 == o1 * (pl_c64() as nat)) by (nonlinear_arith)
+        requires
+            pow256(8) == pl_c64(),
+    ;
+}
+
+/// poly_s(key) from the two pad words
+pub proof fn lemma_pad_value(key: Seq<u8>, t0: nat, t1: nat)
+    requires
+        key.len() >= 32,
+        t0 == le_nat(key.subrange(16, 24)),
+        t1 == le_nat(key.subrange(24, 32)),
+    ensures
+        poly_s(key) == t0 + t1 * (pl_c64() as nat),
+{
+    lemma_pl_consts();
+    let k = key.subrange(16, 32);
+    lemma_le_nat_split(k, 8);
+    assert(k.subrange(0, 8) =~= key.subrange(16, 24));
+    assert(k.subrange(8, 16) =~= key.subrange(24, 32));
+    assert(pow256(8) * t1 == t1 * (pl_c64() as nat)) by (nonlinear_arith)
+        requires
+            pow256(8) == pl_c64(),
+    ;
+}
+
+/// whole-message accumulator from the abstract state
+pub proof fn lemma_rep_total(rv: nat, hv: int, buf: Seq<u8>, a: Seq<u8>)
+    requires
+        pl_rep(rv, hv, buf, a),
+    ensures
+        hv >= 0,
+        buf.len() < 16,
+        poly_acc(rv, 0, a) == poly_acc(rv, hv as nat, buf),
+{
+    let n = (a.len() / 16) * 16;
+    assert(a =~= a.subrange(0, n as int) + buf);
+    lemma_poly_acc_concat(rv, 0, a.subrange(0, n as int), buf);
+}
+
+/// le_nat is the inverse of nat_to_le (modulo 256^n)
+pub proof fn lemma_le_nat_of_nat_to_le(v: nat, n: nat)
+    ensures
+        nat_to_le(v, n).len() == n,
+        le_nat(nat_to_le(v, n)) == v % pow256(n),
+    decreases n,
+{
+    if n == 0 {
+        assert(pow256(0) == 1);
+    } else {
+        let m = (n - 1) as nat;
+        let t = nat_to_le(v / 256, m);
+        let s = nat_to_le(v, n);
+        lemma_le_nat_of_nat_to_le(v / 256, m);
+        assert(s =~= seq![(v % 256) as u8] + t);
+        assert(s.subrange(1, s.len() as int) =~= t);
+        assert(s[0] == (v % 256) as u8);
+        lemma_pow256_pos(m);
+        vstd::arithmetic::div_mod::lemma_mod_breakdown(v as int, 256, pow256(m) as int);
+        assert(pow256(n) == 256 * pow256(m));
+    }
+}
+
+pub proof fn lemma_pow256_pos(k: nat)
+    ensures
+        pow256(k) > 0,
+    decreases k,
+{
+    if k > 0 {
+        lemma_pow256_pos((k - 1) as nat);
+    }
+}
+
+/// the shared `shim_u64_to_le_bytes` (verif_extern.rs) returns nat_to_le(x, 8): its little-endian value is x
+pub proof fn lemma_u64_bytes(x: u64, b: Seq<u8>)
+    requires
+        b == nat_to_le(x as nat, 8),
+    ensures
+        b.len() == 8,
+        le_nat(b) == x as nat,
+{
+    lemma_le_nat_of_nat_to_le(x as nat, 8);
+    lemma_pl_consts();
+    vstd::arithmetic::div_mod::lemma_small_mod(x as nat, pow256(8));
+}
+
 } // verus!
